@@ -1174,6 +1174,54 @@ theorem wire_amounts_reach_the_part (amt_msat onion_amt_msat cltv : Nat) (skim :
       { value := amt_msat, sender_intended_value := onion_amt_msat, timer_ticks := 0, total_value_received := none,
         cltv_expiry := cltv, counterparty_skimmed_fee_msat := skim } := rfl
 
+/-- The receive-side tests RUN BEFORE the accumulator — over the stage order read from the Rust text (`MppGen.recvStages`:
+    create_recv_pending_htlc_info's CLTV / amount tests and routing selection, then process_receive_htlcs' verify and
+    min_final_cltv test, then handle_claimable_htlc).  For every accumulator state and HTLC: if any stage refuses, the
+    claimable_payments state is UNTOUCHED and the only output is the failure of this HTLC (nothing is shown to the user);
+    if none refuses, the result is exactly the accumulator's part step.  Moving a test behind handle_claimable_htlc in the
+    Rust text reorders the generated list and this proof stops checking. -/
+theorem recv_tests_precede_accumulator (sha256 : Nat → Nat) (i : RecvIn) (s : Mpp) :
+    ((∃ st ∈ MppGen.recvStages, stageRefuses sha256 i st ≠ none) →
+      (receive sha256 i s).1 = s ∧ (receive sha256 i s).2.1 = [.failPart i.id] ∧ (receive sha256 i s).2.2 ≠ none) ∧
+    ((∀ st ∈ MppGen.recvStages, stageRefuses sha256 i st = none) →
+      (receive sha256 i s).1 = (step s i.op).1 ∧ (receive sha256 i s).2.1 = (step s i.op).2 ∧ (receive sha256 i s).2.2 = none) := by
+  have hacc : stageRefuses sha256 i .accumulator = none := rfl
+  simp only [receive, MppGen.recvStages, runStages, List.mem_cons, List.not_mem_nil, or_false, exists_eq_or_imp, forall_eq_or_imp,
+    exists_eq_left, forall_eq, List.nil_append, hacc, ne_eq, not_true_eq_false]
+  cases h1 : stageRefuses sha256 i .finalCltv <;> cases h2 : stageRefuses sha256 i .expirySoon <;>
+    cases h3 : stageRefuses sha256 i .amount <;> cases h4 : stageRefuses sha256 i .routing <;>
+    cases h5 : stageRefuses sha256 i .verifySecret <;> cases h6 : stageRefuses sha256 i .minCltv <;> simp
+
+/-- hence: whatever PaymentClaimable the receive path produces, the HTLC that produced it passed EVERY translated test —
+    the exact amount test, the routing selection (payment secret or a keysend preimage that hashes to the payment hash),
+    `verify` and the registered min_final_cltv delta for non-keysend HTLCs -/
+theorem claimable_only_after_all_recv_tests (sha256 : Nat → Nat) (i : RecvIn) (s : Mpp) (a k d : Nat)
+    (h : Out.claimable a k d ∈ (receive sha256 i s).2.1) :
+    MppGen.recvAmountTooLow i.allow i.intended i.value i.skim = false ∧
+    (∀ r, MppGen.recvRouting sha256 i.ks i.pd i.hash ≠ .refused r) ∧
+    (i.ks = none → i.verifyOk = true ∧ ∀ m, i.minCltv = some m → i.height + m ≤ i.cltv) ∧
+    Out.claimable a k d ∈ (step s i.op).2 := by
+  by_cases hall : ∀ st ∈ MppGen.recvStages, stageRefuses sha256 i st = none
+  · have hr := (recv_tests_precede_accumulator sha256 i s).2 hall
+    rw [hr.2.1] at h
+    have e3 := hall .amount (by decide)
+    have e4 := hall .routing (by decide)
+    have e5 := hall .verifySecret (by decide)
+    have e6 := hall .minCltv (by decide)
+    refine ⟨?_, ?_, ?_, h⟩
+    · simp only [stageRefuses] at e3; revert e3; cases MppGen.recvAmountTooLow i.allow i.intended i.value i.skim <;> simp
+    · intro r hr'; simp [stageRefuses, hr'] at e4
+    · intro hk
+      refine ⟨?_, fun m hm => ?_⟩
+      · simp only [stageRefuses, hk] at e5; revert e5; cases i.verifyOk <;> simp
+      · simp only [stageRefuses, hk, hm] at e6
+        exact (recvCltvTest_exact _ _ _).1 (by revert e6; cases MppGen.recvCltvBelowMin i.height m i.cltv <;> simp)
+  · have hex : ∃ st ∈ MppGen.recvStages, stageRefuses sha256 i st ≠ none :=
+      Classical.byContradiction fun hne => hall fun st hst => Classical.byContradiction fun h' => hne ⟨st, hst, h'⟩
+    have hr := (recv_tests_precede_accumulator sha256 i s).1 hex
+    rw [hr.2.1] at h
+    simp at h
+
 /-- Front end + accumulator, composed.  `process_receive_htlcs` hands a part to `handle_claimable_htlc` only after
     `inbound_payment::verify(hash, secret, total_msat of THIS part's onion, ..)` accepted.  If the part that completes a
     set was so verified (for ANY crypto, keys, hash, secret, metadata, time), then for the announced PaymentClaimable
@@ -1331,5 +1379,11 @@ example : Out.claimable 1000 0 441 ∈ (step (step Mpp.init (.part 2 600 600 non
 -- routing_requires_valid_keysend_or_secret: all four outcomes occur
 example : MppGen.recvRouting (fun p => p + 1) (some 4) false 5 = .keysend ∧ MppGen.recvRouting (fun p => p + 1) (some 4) true 6 = .refused .invalidKeysendPreimage ∧
     MppGen.recvRouting (fun p => p + 1) none true 5 = .invoice ∧ MppGen.recvRouting (fun p => p + 1) none false 5 = .refused .paymentSecretRequired := by decide
+
+-- recv_tests_precede_accumulator: a refused HTLC (wrong keysend preimage) and an accepted one that completes a set
+example : (receive (fun p => p + 1) ⟨1, 1000, 1000, none, 1000, 500, 1, false, 500, 400, false, some 4, false, 6, true, none⟩ Mpp.init).2 =
+      ([.failPart 1], some .invalidKeysendPreimage) ∧
+    (receive (fun p => p + 1) ⟨1, 1000, 1000, none, 1000, 500, 1, false, 500, 400, false, some 4, false, 5, true, none⟩ Mpp.init).2 =
+      ([.claimable 1000 0 461], none) := by decide
 
 end Ldk.C04
